@@ -23,6 +23,8 @@
 #include <string.h>
 #include "kv.h"
 
+int ldb_repair(const char *dbname, const ldb_dbopt_t *options);
+
 #define MAXTHR 4
 #define MAXTOPS 6
 #define MAXREC 24
@@ -43,6 +45,8 @@ typedef struct scen_s {
   const char *thr[MAXTHR];
   int close_early;       /* do not drain background work before ldb_close */
   const char *what;
+  int flags;             /* 1: lose the metadata and ldb_repair the image (all tables end up in level 0);
+                            2: do not drain background work after ldb_open */
 } scen_t;
 
 static const scen_t scenarios[] = {
@@ -56,6 +60,12 @@ static const scen_t scenarios[] = {
    "writer + iterator scanner + manual compaction over a 3-level layout"},
   {"D4", "B1", 4, "", "", {"P0.1! P1.1!", "P0.1 P1.1", "g0 g1 g0"}, 0,
    "sync writer + non-sync writer (sync must not be merged into non-sync group) + reader"},
+  {"D4b", "B1", 4, "", "", {"P0.1", "P1.1", "P0.1!"}, 0,
+   "three writers, the last one sync: a non-sync writer can become group leader with the sync writer queued behind it"},
+  {"D4c", "B1", 4, "", "", {"P0.1!", "P1.1", "P1.1! g0"}, 0,
+   "sync leader, non-sync follower, sync follower + read"},
+  {"D14", "B1", 4, "P0.1 F P0.1 F P0.1 F P0.1 F", "", {"P0.2 P1.2 P0.2 P1.2 P0.1 P1.1", "R0"}, 0,
+   "a writer fills and switches the memtable (5th put) while a manual level-0 compaction is in its unlocked tail"},
   {"D5", "B1", 4, "P0.1 F P0.1 F", "", {"P0.2 P1.2", "y x y", "x n01"}, 0,
    "writer + property/approximate-sizes + snapshot churn"},
   {"D6", "B1,reuse=1", 4, "P0.2 P1.2 P0.2", "", {"P0.2 P0.2", "P1.2", "P0.1", "g0"}, 0,
@@ -72,6 +82,9 @@ static const scen_t scenarios[] = {
    "ldb_backup concurrent with a batch writer and with a writer that forces a flush/compaction"},
   {"D13", "B1,reuse=1", 4, "P0.2 P1.2 P0.2", "", {"B[P0.1,P1.1] B[D0,D1]", "K", "P0.2"}, 0,
    "ldb_backup while the memtable is being switched and flushed in the background"},
+  {"D7", "B1", 0, "P0.1 F P1.1 F P2.1 F P3.1 F P0.1 F P1.1 F P2.1 F P3.1 F P0.1 F P1.1 F P2.1 F P3.1", "",
+   {"P0.1 P1.1", "P2.1", "g0 g1"}, 0,
+   "12 level-0 files (repaired image): writers stall on the level-0 stop trigger until the compaction started at open completes", 3},
   {"D2b", "B1", 4, "", "", {"B[P0.1,P1.1]", "B[D0,D1]", "t t"}, 0,
    "batch writer + batch deleter + iterator scanner (both keys or none)"},
 };
@@ -84,13 +97,19 @@ static int nprog[MAXTHR], nthr_fg;
 static vfs_t *image;          /* initial image template */
 static kmodel_t init_model;
 static const char *prop = "C08";
-static int use_io, use_spurious, bound = 2, base_sched;
+static int use_io, use_spurious, bound = 2, base_sched, hook_mask = 3, do_crash;
+static uint64_t n_crash_images, n_crash_recoveries, n_crash_points, n_exec_switch, n_exec_table;
+static vh_set_t crash_seen;
+static sch_point_t *main_trace;
+static int main_trace_len, main_trace_cap;
+static int crash_nodedup;   /* replays must re-judge images already seen */
 
 /* per-execution records (each thread writes only its own slot range) */
 typedef struct oprec_s {
   int thread, idx;
   char kind;
   uint64_t inv, ret;
+  int j_begin, j_end;     /* journal length when the call began / returned (crash stage) */
   int status;
   int vids[KV_MAXKEYS];   /* observed values (0 = absent), -1 n/a */
   kop_t w;
@@ -173,7 +192,7 @@ do_scan(int t, ldb_iter_t *it, int *vids, int *status) {
         vids[k] = read_vid(&val, t);
         found = 1;
       }
-    if (!found) vids[0] = -3; /* alien key */
+    if (!found && !(do_crash && key.size == 3 && ((const char *)key.data)[0] == 'm')) vids[0] = -3; /* alien key */
   }
   *status = ldb_iter_status(it);
 }
@@ -194,6 +213,16 @@ thread_body(void *arg) {
         ldb_writeopt_t wo = *ldb_writeopt_default;
         wo.sync = o->w.sync;
         ldb_batch_init(&b);
+        if (do_crash) {
+          /* marker key of this batch: m<thread><op> */
+          char mk[4];
+          ldb_slice_t key, val;
+          mk[0] = 'm'; mk[1] = (char)('0' + t); mk[2] = (char)('0' + j); mk[3] = 0;
+          kv_vgen(tbuf[t], thread_vid(t, j, 7), VS_SHORT);
+          key = ldb_slice(mk, 3);
+          val = ldb_slice(tbuf[t], kv_vlen(VS_SHORT));
+          ldb_batch_put(&b, &key, &val);
+        }
         for (u = 0; u < o->w.n; u++) {
           ldb_slice_t key = ldb_slice(kv_keys[o->w.u[u].key], kv_keylen[o->w.u[u].key]);
           if (o->w.u[u].del) {
@@ -206,7 +235,9 @@ thread_body(void *arg) {
           }
         }
         r->inv = sch_event();
+        r->j_begin = vfs_jlen(vfs_cur);
         r->status = ldb_write(gdb, &b, &wo);
+        r->j_end = vfs_jlen(vfs_cur);
         r->ret = sch_event();
         ldb_batch_clear(&b);
         break;
@@ -304,11 +335,14 @@ exec_body(void *arg) {
   sch_quiet(1);
   kh_init(&h, &cfg, DB);
   h.auto_drain = 1;
+  if (sc->flags & 2)
+    h.auto_drain = 0;
   if (kh_open(&h) != LDB_OK) {
     snprintf(exec_err, sizeof(exec_err), "open failed: %d", h.open_status);
     kh_clear(&h);
     return;
   }
+  h.auto_drain = 1;
   npre = khist_parse(pre, 16, sc->pre);
   for (i = 0; i < npre; i++)
     kh_apply(&h, &pre[i]);
@@ -467,6 +501,8 @@ typedef struct xres_s {
   uint64_t outcome;
 } xres_t;
 
+static void crash_stage(vfs_t *v, xres_t *x);
+
 static void
 run_one(const int *prefix, int nprefix, xres_t *x) {
   sch_cfg_t c;
@@ -478,12 +514,21 @@ run_one(const int *prefix, int nprefix, xres_t *x) {
   c.prefix = prefix;
   c.nprefix = nprefix;
   c.io_points = use_io;
-  c.hook_points = 1;
+  c.hook_points = hook_mask;
   c.step_max = 300000;
   c.allow_spurious = use_spurious;
   c.starve_default = base_sched;
   vfs_use(v);
   x->status = sch_run(exec_body, NULL, &c);
+  /* keep the choice points of THIS execution: the crash stage below runs further (recovery)
+   * executions that overwrite the scheduler's trace */
+  if (sch_trace_len > main_trace_cap) {
+    main_trace_cap = sch_trace_len * 2 + 64;
+    main_trace = realloc(main_trace, sizeof(sch_point_t) * (size_t)main_trace_cap);
+  }
+  main_trace_len = sch_trace_len;
+  if (sch_trace_len)
+    memcpy(main_trace, sch_trace, sizeof(sch_point_t) * (size_t)sch_trace_len);
   n_exec++;
   n_points += (uint64_t)sch_steps;
   n_choicepoints += (uint64_t)sch_trace_len;
@@ -523,7 +568,120 @@ run_one(const int *prefix, int nprefix, xres_t *x) {
   for (k = 0; k < 4; k++)
     x->outcome = vh_mix(x->outcome, (uint64_t)(final_vids[k] + 5));
   x->outcome = vh_mix(x->outcome, (uint64_t)x->status);
+  {
+    /* anti-vacuity: did this execution switch memtables / produce a table in the background? */
+    int q, sw = 0, tb = 0;
+    for (q = 0; q < v->njournal; q++) {
+      const vjent_t *e = &v->journal[q];
+      if (e->kind == J_CREATE && e->tid != 0) {
+        size_t l = strlen(e->path);
+        if (l > 4 && strcmp(e->path + l - 4, ".log") == 0) sw = 1;
+        if (l > 4 && strcmp(e->path + l - 4, ".ldb") == 0) tb = 1;
+      }
+    }
+    n_exec_switch += (uint64_t)sw;
+    n_exec_table += (uint64_t)tb;
+  }
+  if (getenv("VH_DEBUG_JOURNAL")) {
+    int q, tq, kq;
+    fprintf(stderr, "EXEC base=%d status=%d ok=%d J=%d acks:", base_sched, x->status, x->ok, v->njournal);
+    for (tq = 0; tq < nthr_fg; tq++) for (kq = 0; kq < nrecs[tq]; kq++) if (recs[tq][kq].kind == 'W') fprintf(stderr, " T%d.%d[%d,%d]", tq, kq, recs[tq][kq].j_begin, recs[tq][kq].j_end);
+    fprintf(stderr, " |");
+    for (q = 0; q < v->njournal; q++) {
+      const vjent_t *e = &v->journal[q];
+      if (e->kind == J_UNLINK || e->kind == J_CREATE) fprintf(stderr, " j%d:t%d:%s:%s", q, e->tid, vfs_jkind(e->kind), strrchr(e->path, '/') + 1);
+    }
+    fprintf(stderr, "\n");
+  }
+  if (do_crash && x->ok && x->status == SCH_OK)
+    crash_stage(v, x);
   vfs_free(v);
+}
+
+
+/* ---------------- crash stage (C02/C03 under concurrency) ---------------- */
+/* The journal of an explored execution is an interleaved I/O trace of several writers and the
+ * background thread.  Every journal index is a crash point; images min / max / dir-ahead /
+ * data-ahead are recovered by the real ldb_open and the marker keys tell which batches survive:
+ * a batch acknowledged with sync before the crash must survive every image (C02), every
+ * acknowledged batch must survive the max image = process crash (C03). */
+
+typedef struct cjob_s { uint32_t present; int open_rc; } cjob_t;
+
+static void
+crash_recover_body(void *arg) {
+  cjob_t *j = arg;
+  khist_t h;
+  int t, k;
+  kh_init(&h, &cfg, DB);
+  j->present = 0;
+  j->open_rc = kh_open(&h);
+  if (j->open_rc == LDB_OK)
+    for (t = 0; t < nthr_fg; t++)
+      for (k = 0; k < nprog[t]; k++)
+        if (prog[t][k].kind == 'W') {
+          char mk[4];
+          ldb_slice_t key;
+          mk[0] = 'm'; mk[1] = (char)('0' + t); mk[2] = (char)('0' + k); mk[3] = 0;
+          key = ldb_slice(mk, 3);
+          if (ldb_has(h.db, &key, NULL) == LDB_OK)
+            j->present |= 1u << (t * MAXTOPS + k);
+        }
+  kh_clear(&h);
+}
+
+static void
+crash_stage(vfs_t *v, xres_t *x) {
+  int J = v->njournal, tt, cls, t, k;
+  size_t *W = malloc(sizeof(size_t) * (size_t)(v->ninodes + 1));
+  size_t *S = malloc(sizeof(size_t) * (size_t)(v->ninodes + 1));
+  size_t *lens = malloc(sizeof(size_t) * (size_t)(v->ninodes + 1));
+  sch_cfg_t c;
+  memset(&c, 0, sizeof(c));
+  c.step_max = 2000000;
+  for (tt = 1; tt <= J && x->ok; tt++) {
+    int nd = vfs_ndirops_before(v, tt), wm = vfs_watermark(v, tt);
+    uint32_t acked = 0, must = 0;
+    n_crash_points++;
+    vfs_lens_at(v, tt, W, S);
+    for (t = 0; t < nthr_fg; t++)
+      for (k = 0; k < nrecs[t]; k++)
+        if (recs[t][k].kind == 'W' && recs[t][k].status == LDB_OK && recs[t][k].j_end <= tt) {
+          acked |= 1u << (t * MAXTOPS + k);
+          if (recs[t][k].w.sync) must |= 1u << (t * MAXTOPS + k);
+        }
+    for (cls = 0; cls < 4 && x->ok; cls++) {
+      /* 0 min, 1 max, 2 dir-ahead, 3 data-ahead */
+      int D = (cls == 0 || cls == 3) ? wm : nd, i;
+      vfs_t *img;
+      cjob_t j;
+      uint64_t key;
+      for (i = 0; i < v->ninodes; i++) lens[i] = (cls == 1 || cls == 3) ? W[i] : S[i];
+      img = vfs_image(v, tt, D, lens);
+      n_crash_images++;
+      key = vh_mix(vh_mix(vfs_hash(img, DB, 1), acked), vh_mix(must, (uint64_t)(cls == 1)));
+      if (!vs_add(&crash_seen, key) && !crash_nodedup) { vfs_free(img); continue; }
+      vfs_use(img);
+      if (sch_run(crash_recover_body, &j, &c) != SCH_OK) { j.open_rc = -1; j.present = 0; }
+      n_crash_recoveries++;
+      if (j.open_rc != LDB_OK) {
+        x->ok = 0;
+        snprintf(x->sig, sizeof(x->sig), "crash-open-failed");
+        snprintf(x->err, sizeof(x->err), "crash at journal index %d of %d of this interleaved execution (image class %d): ldb_open fails with %d", tt, J, cls, j.open_rc);
+      } else if (must & ~j.present) {
+        x->ok = 0;
+        snprintf(x->sig, sizeof(x->sig), "lost-synced-write-concurrent");
+        snprintf(x->err, sizeof(x->err), "crash at journal index %d of %d of this interleaved execution, image class %d (0 min,1 max,2 dir-ahead,3 data-ahead): batches %x (bit = thread*%d+op) were acknowledged WITH sync before the crash but are missing after recovery (present %x)",
+                 tt, J, cls, must & ~j.present, MAXTOPS, j.present);
+      } else if (cls == 1 && (acked & ~j.present)) {
+        x->ok = 0;
+        snprintf(x->sig, sizeof(x->sig), "process-crash-lost-ack-concurrent");
+        snprintf(x->err, sizeof(x->err), "process crash at journal index %d of %d of this interleaved execution: acknowledged batches %x are missing after reopen (present %x)", tt, J, acked & ~j.present, j.present);
+      }
+      vfs_free(img);
+    }
+  }
+  free(W); free(S); free(lens);
 }
 
 static void
@@ -531,11 +689,13 @@ report(const int *choices, int n, const xres_t *x) {
   vh_buf_t rp, dt;
   xres_t y;
   int i;
+  crash_nodedup = 1;
   run_one(choices, n, &y);
+  crash_nodedup = 0;
   if (y.ok)
     vh_die("violation did not reproduce on replay: %s", x->err);
   vb_init(&rp); vb_init(&dt);
-  vb_printf(&rp, "{\"scenario\":\"%s\",\"io\":%d,\"spurious\":%d,\"base\":%d,\"choices\":[", sc->name, use_io, use_spurious, base_sched);
+  vb_printf(&rp, "{\"scenario\":\"%s\",\"io\":%d,\"spurious\":%d,\"base\":%d,\"hooks\":%d,\"crash\":%d,\"choices\":[", sc->name, use_io, use_spurious, base_sched, hook_mask, do_crash);
   for (i = 0; i < n; i++) vb_printf(&rp, "%s%d", i ? "," : "", choices[i]);
   vb_printf(&rp, "]}");
   vb_printf(&dt, "scenario %s (%s), schedule of %d choices: %s", sc->name, sc->what, n, x->err);
@@ -552,7 +712,7 @@ static void
 announce(const int *choices, int n) {
   char buf[2000];
   int p = 0, i;
-  p += snprintf(buf + p, sizeof(buf) - (size_t)p, "{\"scenario\":\"%s\",\"io\":%d,\"spurious\":%d,\"base\":%d,\"choices\":[", sc->name, use_io, use_spurious, base_sched);
+  p += snprintf(buf + p, sizeof(buf) - (size_t)p, "{\"scenario\":\"%s\",\"io\":%d,\"spurious\":%d,\"base\":%d,\"hooks\":%d,\"crash\":%d,\"choices\":[", sc->name, use_io, use_spurious, base_sched, hook_mask, do_crash);
   for (i = 0; i < n && p < 1900; i++) p += snprintf(buf + p, sizeof(buf) - (size_t)p, "%s%d", i ? "," : "", choices[i]);
   snprintf(buf + p, sizeof(buf) - (size_t)p, "]}");
   drv_case("%s", buf);
@@ -567,9 +727,10 @@ explore(const int *prefix, int nprefix, int used, int maxdev, int top) {
   if (stop_now) return;
   announce(prefix, nprefix);
   run_one(prefix, nprefix, &x);
-  n = sch_trace_len;
+  n = main_trace_len;
   tr = malloc(sizeof(sch_point_t) * (size_t)(n + 1));
-  memcpy(tr, sch_trace, sizeof(sch_point_t) * (size_t)n);
+  if (n)
+    memcpy(tr, main_trace, sizeof(sch_point_t) * (size_t)n);
   choices = malloc(sizeof(int) * (size_t)(n + 2));
   for (i = 0; i < n; i++) choices[i] = tr[i].chosen;
   drv_set("outcomes", x.outcome);
@@ -607,12 +768,12 @@ explore(const int *prefix, int nprefix, int used, int maxdev, int top) {
 static void
 build_image_body(void *arg) {
   khist_t h;
-  kop_t ops[24];
+  kop_t ops[32];
   int n, i;
   (void)arg;
   kh_init(&h, &cfg, DB);
   if (kh_open(&h) != LDB_OK) vh_die("scenario init: open failed");
-  n = khist_parse(ops, 24, sc->init);
+  n = khist_parse(ops, 32, sc->init);
   if (n < 0) vh_die("bad init history");
   for (i = 0; i < n; i++)
     if (kh_apply(&h, &ops[i]) != LDB_OK) vh_die("scenario init: op failed");
@@ -622,6 +783,17 @@ build_image_body(void *arg) {
     kop_t pre[16];
     int np = khist_parse(pre, 16, sc->pre);
     for (i = 0; i < np; i++) kh_model_apply(&init_model, &pre[i], n + i);
+  }
+  kh_close(&h);
+  if (sc->flags & 1) {
+    char names[256][64], p[300];
+    int nn = vfs_list(vfs_cur, DB, names, 256);
+    for (i = 0; i < nn; i++)
+      if (strncmp(names[i], "MANIFEST-", 9) == 0 || strcmp(names[i], "CURRENT") == 0) {
+        snprintf(p, sizeof(p), "%s/%s", DB, names[i]);
+        vfs_remove(vfs_cur, p);
+      }
+    if (ldb_repair(DB, &h.o.opt) != LDB_OK) vh_die("scenario init: repair failed");
   }
   kh_clear(&h);
 }
@@ -659,6 +831,9 @@ main(int argc, char **argv) {
   bound = (int)drv_opt_long("bound", 2);
   use_io = (int)drv_opt_long("io", 0);
   use_spurious = (int)drv_opt_long("spurious", 0);
+  hook_mask = (int)drv_opt_long("hooks", 3);
+  do_crash = (int)drv_opt_long("crash", 0);
+  vs_init(&crash_seen);
   list = drv_opt("scenarios", "D1");
   vs_init(&outcome_set);
   vs_init(&lin_memo);
@@ -678,6 +853,8 @@ main(int argc, char **argv) {
     p = strstr(drv.replay, "\"io\":"); if (p) use_io = atoi(p + 5);
     p = strstr(drv.replay, "\"spurious\":"); if (p) use_spurious = atoi(p + 11);
     p = strstr(drv.replay, "\"base\":"); if (p) base_sched = atoi(p + 7);
+    p = strstr(drv.replay, "\"hooks\":"); if (p) hook_mask = atoi(p + 8);
+    p = strstr(drv.replay, "\"crash\":"); if (p) do_crash = atoi(p + 8);
     setup_scenario(&scenarios[i]);
     p = strstr(drv.replay, "\"choices\":[");
     if (p) {
@@ -687,6 +864,7 @@ main(int argc, char **argv) {
         if (*p == ',') p++;
       }
     }
+    crash_nodedup = 1;
     run_one(choices, n, &x);
     if (!x.ok) report(choices, n, &x);
     else printf("REPLAY-OK\n");
@@ -725,12 +903,12 @@ main(int argc, char **argv) {
     if (drv.shard == 0) drv_sample(s);
   }
   {
-    char r[600];
+    char r[1200];
     snprintf(r, sizeof(r),
              "\"evaluations\":%llu,\"states\":%llu,\"transitions\":%llu,\"traces_validated_against_impl\":%llu,\"choice_points\":%llu,"
-             "\"linearization_nodes\":%llu,\"max_deviation_bound_completed\":%d,\"exhaustive\":%s",
+             "\"linearization_nodes\":%llu,\"executions_with_memtable_switch\":%llu,\"executions_with_background_table\":%llu,\"crash_points\":%llu,\"crash_images\":%llu,\"crash_recoveries\":%llu,\"max_deviation_bound_completed\":%d,\"exhaustive\":%s",
              (unsigned long long)n_exec, (unsigned long long)n_exec, (unsigned long long)n_points, (unsigned long long)n_exec,
-             (unsigned long long)n_choicepoints, (unsigned long long)n_lin_orders, max_dev_done, stop_now ? "false" : "true");
+             (unsigned long long)n_choicepoints, (unsigned long long)n_lin_orders, (unsigned long long)n_exec_switch, (unsigned long long)n_exec_table, (unsigned long long)n_crash_points, (unsigned long long)n_crash_images, (unsigned long long)n_crash_recoveries, max_dev_done, stop_now ? "false" : "true");
     drv_result(r);
   }
   return 0;
